@@ -91,12 +91,55 @@ Definition free (d : nd) : nd :=
   if live d then mkND (period d) (expiry d) false None (S (released d))
   else d.
 
+(* The with-statement.  `with NotifierDelay(P) as delay: <block>` calls
+   __enter__ (returns self, nothing else) and, HOWEVER the block is left,
+   __exit__(exc_type, exc_val, exc_tb): with (None, None, None) when the block
+   runs to its end or is left by break / continue / return, with the exception
+   when one is raised inside the block.  If __exit__ returns a true value the
+   exception is swallowed, otherwise it is re-raised after __exit__. *)
+
+(* the exception classes the correspondence raises inside the block (the model
+   does not look at the class: Exception subclasses, StopIteration, and the
+   BaseException-only classes are all the same to __exit__) *)
+Inductive exn := RuntimeErr | ValueErr | StopIter | KeyboardInt | SysExit | GenExit.
+
+(* how the with-block is left *)
+Inductive leave :=
+| EndOfBlock            (* the block ran to its end *)
+| BreakOut              (* break (or continue) of a loop around the with *)
+| ReturnOut             (* return from the function containing the with *)
+| Raised (e : exn).     (* an exception raised in the block *)
+
+(* the (exc_type, exc_val, exc_tb) that __exit__ receives: None = all three None *)
+Definition exc_info (h : leave) : option exn :=
+  match h with Raised e => Some e | _ => None end.
+
+(* __exit__(exc_type, exc_val, exc_tb):
+     self.free()
+   and falls off the end: returns None.  Result: the object, and the truth
+   value of what __exit__ returned ([true] would swallow the exception). *)
+Definition exit_ (d : nd) (exc : option exn) : nd * bool := (free d, false).
+
+(* the with-statement's protocol: does an exception come out of the statement,
+   given what __exit__ received and the truth value it returned *)
+Definition propagates (exc : option exn) (swallow : bool) : bool :=
+  match exc with
+  | Some _ => negb swallow
+  | None => false
+  end.
+
 (* ------------------------------------------------------------------ *)
 (* What the user's loop does with the object. *)
 Inductive op :=
 | Body (b : Z)     (* the loop body runs for b microseconds of FPGA time *)
 | Wait             (* delay.wait() *)
-| Free.            (* delay.free(), leaving the with-block, or __del__ *)
+| Free             (* delay.free(), or __del__ (which only calls free()) *)
+| Exit (exc : option exn).
+                   (* delay.__exit__(...): the with-block is left; exc = the
+                      exception that leaves it, None when there is none *)
+
+(* leaving the with-block in the way [h] *)
+Definition leave_with (h : leave) : op := Exit (exc_info h).
 
 Definition step (s : nd * Z) (o : op) : nd * Z :=
   let (d, now) := s in
@@ -104,6 +147,7 @@ Definition step (s : nd * Z) (o : op) : nd * Z :=
   | Body b => (d, now + b)
   | Wait => wait d now
   | Free => (free d, now)
+  | Exit e => (fst (exit_ d e), now)
   end.
 
 Definition final (s : nd * Z) (ops : list op) : nd * Z := fold_left step ops s.
@@ -120,9 +164,9 @@ Fixpoint wait_log (s : nd * Z) (ops : list op) : list (Z * Z) :=
       end
   end.
 
-(* what an observer outside the object sees after each wait()/free():
-   the FPGA clock, the alarm the HAL holds, the number of releases so far
-   (nothing is recorded after a body: it only moves the clock) *)
+(* what an observer outside the object sees after each wait()/free()
+   or __exit__: the FPGA clock, the alarm the HAL holds, the number of releases
+   so far (nothing is recorded after a body: it only moves the clock) *)
 Definition snap : Type := Z * option Z * nat.
 Definition snap_of (s : nd * Z) : snap := (snd s, alarm (fst s), released (fst s)).
 Fixpoint snaps (s : nd * Z) (ops : list op) : list snap :=
@@ -147,7 +191,26 @@ Definition grid (t0 p : Z) (k : nat) : Z := t0 + Z.of_nat k * p.
    (the i-th record, counted from 0, belongs to the (i+1)-th wait) *)
 Definition lateness (t0 p : Z) (i : nat) (rec : Z * Z) : Z := snd rec - grid t0 p (S i).
 
-Definition is_free (o : op) : bool := match o with Free => true | _ => false end.
+(* the operations that must release the notifier: free()/__del__ and every
+   __exit__, whatever it receives *)
+Definition is_free (o : op) : bool :=
+  match o with
+  | Free => true
+  | Exit _ => true
+  | _ => false
+  end.
+
+(* one record per __exit__: does an exception come out of the with-statement *)
+Fixpoint exit_log (s : nd * Z) (ops : list op) : list bool :=
+  match ops with
+  | [] => []
+  | o :: r =>
+      let s' := step s o in
+      match o with
+      | Exit e => propagates e (snd (exit_ (fst s) e)) :: exit_log s' r
+      | _ => exit_log s' r
+      end
+  end.
 
 (* ------------------------------------------------------------------ *)
 (* correspondence: one case = constructor argument (exact rational of the
@@ -170,11 +233,13 @@ Fixpoint list_eqb {A} (e : A -> A -> bool) (l1 l2 : list A) : bool :=
 
 (* what the model predicts for a case: None = the constructor raises
    ValueError; Some (period :: snapshot after the constructor ++ snapshots
-   after each operation) *)
+   after each wait/free/__exit__ ++ one 0/1 per __exit__: did an exception come
+   out of the with-statement) *)
 Definition predict (P : Q) (t0 : Z) (ops : list op) : option (list Z) :=
   match create_opt P t0 with
   | None => None
-  | Some d => Some (period d :: flat (snap_of (d, t0)) ++ flat_map flat (snaps (d, t0) ops))
+  | Some d => Some (period d :: flat (snap_of (d, t0)) ++ flat_map flat (snaps (d, t0) ops)
+                             ++ map (fun b : bool => if b then 1 else 0) (exit_log (d, t0) ops))
   end.
 
 Definition case : Type := Q * Z * list op * option (list Z).
